@@ -134,6 +134,41 @@ func (s *serverChild) diedAfter(err error) bool {
 	return false
 }
 
+// stuck reports whether the child is deadlocked: every thread asleep and no CPU tick
+// consumed during 10 s of wall time while a request is outstanding.
+func (s *serverChild) rpcOrStuck(call func(ctx context.Context) error) (err error, stuck bool) {
+	ctx, cancel := context.WithTimeout(context.Background(), 5*time.Minute)
+	defer cancel()
+	done := make(chan error, 1)
+	go func() { done <- call(ctx) }()
+	tick := time.NewTicker(250 * time.Millisecond)
+	defer tick.Stop()
+	idle := 0
+	var last int64 = -1
+	for {
+		select {
+		case err := <-done:
+			return err, false
+		case <-tick.C:
+			if !s.alive() {
+				continue // the RPC fails by itself
+			}
+			cpu, asleep := childActivity(s.cmd.Process.Pid)
+			if asleep && cpu == last {
+				idle++
+			} else {
+				idle = 0
+			}
+			last = cpu
+			if idle >= 40 {
+				cancel()
+				<-done
+				return nil, true
+			}
+		}
+	}
+}
+
 func (s *serverChild) stop() {
 	if s.conn != nil {
 		s.conn.Close()
@@ -154,7 +189,7 @@ func (s *serverChild) logTail() string {
 
 func utf8Spec(sp *DataSpec) {
 	for i := range sp.Cols {
-		if sp.Cols[i].Kind == "bin" {
+		if sp.Cols[i].Kind == "bin" || sp.Cols[i].Kind == "order" {
 			sp.Cols[i].Kind = "utf8"
 		}
 	}
@@ -485,11 +520,28 @@ func omissions(r *simrt.Rand, q *Query) []Hostile {
 		},
 	}
 	names := []string{"unset oneof", "empty eq", "not without operand", "and without operands", "or without operands", "and of two unset expressions", "or of not-without-operand", "unknown column", "unresolved placeholder"}
+	var gb []string
+	for _, g := range q.GroupBy {
+		gb = append(gb, string(g))
+	}
+	valid := func() *pb.Query { return q.ToProto(3) }
 	for pi, pos := range positions {
 		for di, mk := range damaged {
 			saved := pos.Value
 			pos.Value = mk().Value
-			add(fmt.Sprintf("%s at position %d", names[di], pi), req(&pb.Query{Id: 9, Expr: root, GroupBy: nil}))
+			hostile := &pb.Query{Id: 9, Expr: root}
+			what := fmt.Sprintf("%s at position %d", names[di], pi)
+			switch r.Intn(4) {
+			case 0:
+				hostile.GroupBy = gb
+				add(what+" with group-by", req(hostile))
+			case 1:
+				add(what+" as second query of a batch", req(valid(), hostile))
+			case 2:
+				add(what+" as first query of a batch", req(hostile, valid()))
+			default:
+				add(what, req(hostile))
+			}
 			pos.Value = saved
 		}
 	}
@@ -519,8 +571,13 @@ func genC14(c *Ctx) any {
 	utf8Spec(cs.Data.Spec)
 	si := infoOf(cs.Data.Spec.Expand())
 	var pool []Hostile
+	var bases []*Query
 	for i := 0; i < 3; i++ {
 		q := &Query{Expr: GenExpr(r, si, r.Range(1, 3), ExprOpts{MaxArity: 3})}
+		if r.Chance(1, 2) {
+			q.GroupBy = GenGroupBy(r, si, 2, false)
+		}
+		bases = append(bases, q)
 		pool = append(pool, omissions(r, q)...)
 	}
 	leaf := Eq(firstCol(si), "v0").ToProto()
@@ -567,6 +624,14 @@ func genC14(c *Ctx) any {
 		if r.Chance(1, 2) {
 			q.GroupBy = GenGroupBy(r, si, 2, false)
 		}
+		if r.Chance(1, 2) {
+			// the intact tree the hostile messages were derived from (or a part of it): a
+			// failed request that left something behind under its cache keys shows up here
+			q = bases[r.Intn(len(bases))]
+			if r.Chance(1, 3) && len(q.Expr.Kids) > 0 {
+				q = &Query{Expr: q.Expr.Kids[r.Intn(len(q.Expr.Kids))]}
+			}
+		}
 		cs.Probes = append(cs.Probes, q)
 	}
 	return cs
@@ -608,10 +673,13 @@ func runC14(c *Ctx, body json.RawMessage) *Verdict {
 				continue
 			}
 			var respb []byte
-			ctx, cancel := context.WithTimeout(context.Background(), 30*time.Second)
-			err := s.conn.Invoke(ctx, "/updog.v1.QueryService/Query", &reqb, &respb, grpc.ForceCodec(rawCodec{}))
-			cancel()
+			err, stuck := s.rpcOrStuck(func(ctx context.Context) error {
+				return s.conn.Invoke(ctx, "/updog.v1.QueryService/Query", &reqb, &respb, grpc.ForceCodec(rawCodec{}))
+			})
 			sent++
+			if stuck {
+				return v.Violate("server-stuck", "round %d request %d (%s): no answer and the server process is asleep (no CPU time for 10 s): it will never answer", ri, hi, h.What)
+			}
 			if s.diedAfter(err) {
 				return v.Violate("server-died", "round %d request %d (%s): the server process exited (%v)\n%s", ri, hi, h.What, s.werr, s.logTail())
 			}
@@ -624,15 +692,27 @@ func runC14(c *Ctx, body json.RawMessage) *Verdict {
 				v.Count("answered_with_response", 1)
 			}
 			v.Count("fault_hostile_"+strings.SplitN(h.What, " at position", 2)[0], 1)
+			if strings.Contains(h.What, "batch") {
+				v.Count("fault_hostile_in_batch", 1)
+			}
+			if strings.Contains(h.What, "group-by") {
+				v.Count("fault_hostile_with_group_by", 1)
+			}
 		}
 		q := cs.Probes[ri]
 		req, qs, ids, ok := buildRequest([]BatchQ{{Q: q}})
 		if !ok {
 			return Invalid("probe not encodable")
 		}
-		ctx, cancel := context.WithTimeout(context.Background(), 30*time.Second)
-		resp, rerr := s.cli.Query(ctx, req)
-		cancel()
+		var resp *pb.QueryResponse
+		rerr, stuck := s.rpcOrStuck(func(ctx context.Context) error {
+			var e error
+			resp, e = s.cli.Query(ctx, req)
+			return e
+		})
+		if stuck {
+			return v.Violate("server-stuck", "probe %d (%s) after %d hostile requests is never answered: the server process is asleep (no CPU time for 10 s)", ri, q, sent)
+		}
 		if s.diedAfter(rerr) {
 			return v.Violate("server-died", "the server process exited before probe %d was answered (%v)\n%s", ri, s.werr, s.logTail())
 		}
